@@ -163,7 +163,7 @@ package mqtt
 
 //@ func (*BaseClient).serve
 //@   mode int
-//@   props C04 C06 C07
+//@   props C04 C06 C07 C17
 //@   maxpaths 20000
 //@   requires c != nil && c.sig != nil && c.Transport != nil
 //@   assigns nothing
@@ -178,6 +178,7 @@ package mqtt
 //@   loop 1 iter[C06] writes_ok: written() == 1 ==> evRet[error]("(*BaseClient).write", 0, 0) == nil
 //@   loop 1 iter[C04] pub_serve: itIsPublish() && itPublish().Message.QoS <= QoS1 ==>
 //@        served() == ite(c.handler != nil, 1, 0) && (served() == 1 ==> evArg[*Message]("Handler.Serve", 0, 1) == itPublish().Message) && sbSame(subBuffer, sb0)
+//@   loop 1 iter[C17] current_handler: served() == 1 ==> evArg[Handler]("Handler.Serve", 0, 0) == guardVal(&c.handler)
 //@   loop 1 iter[C04] qos0: itIsPublish() && itPublish().Message.QoS == QoS0 ==> written() == 0
 //@   loop 1 iter[C04] qos1: itIsPublish() && itPublish().Message.QoS == QoS1 ==>
 //@        written() == 1 && seqEq(evBytes("(*BaseClient).write", 0, 1), specAck(0x40, itPublish().Message.ID)) &&
